@@ -745,7 +745,13 @@ func (lw *liveWatch) recv() string {
 }
 
 func watchStartErr(err error) string {
-	if state.IsInvalidWatchBookmarkError(err) {
+	// the classification must survive wrapping (a layer in between annotating the error with %w)
+	direct, wrapped := state.IsInvalidWatchBookmarkError(err), state.IsInvalidWatchBookmarkError(fmt.Errorf("annotated: %w", err))
+	if direct != wrapped {
+		return fmt.Sprintf("err class=UNSTABLE-UNDER-WRAPPING(direct=%v,wrapped=%v)", direct, wrapped)
+	}
+
+	if direct {
 		return "err class=invalidBookmark"
 	}
 
